@@ -719,3 +719,112 @@ func waitingStreamUnsetLimits(t *testing.T, st *Stats) {
 		}
 	}
 }
+
+// streamTimedCases (C11): two cases in which time passes on a stream, outside the event model of the
+// other C11 cases. (i) A subscription with a short retry back-off, a stream with room for one message: the
+// message it has been sent is not acknowledged and its retry deadline passes; it is still outstanding
+// (not acknowledged, not expired), so a second message published then is not sent. (ii) A subscription
+// with an injected delivery delay, a stream with room for five: a message published while another is
+// outstanding is sent once its delay has passed — the stream does not sit idle with capacity free.
+func streamTimedCases(t *testing.T, st *Stats) {
+	type tc struct {
+		name  string
+		cfg   SubCfg
+		delay int64
+		limit int64
+	}
+	for _, c := range []tc{
+		{name: "lease-lapsed-keeps-slot", cfg: SubCfg{Topic: "t", TTL: 24 * 3600 * Sec, MTTL: 3600 * Sec, MinB: 200 * Ms, MaxB: 300 * Ms}, limit: 1},
+		{name: "delayed-publish-wakes", cfg: SubCfg{Topic: "t", TTL: 24 * 3600 * Sec, MTTL: 3600 * Sec}, delay: 300 * Ms, limit: 5},
+	} {
+		what := ""
+		synctest.Test(t, func(t *testing.T) {
+			w := NewWorld(t, Seed())
+			defer w.Close()
+			w.Exec(Op{K: "create_topic", Topic: "t"})
+			cfg := c.cfg
+			w.Exec(Op{K: "create_sub", Sub: "s", Cfg: &cfg})
+			if c.delay > 0 {
+				if r := w.Exec(Op{K: "set_delay", Sub: "s", D: c.delay}); r.Err != nil {
+					what = "setup: set_delay: " + r.Err.Error()
+					return
+				}
+			}
+			time.Sleep(time.Millisecond)
+			w.Ctl.mu.Lock()
+			w.Ctl.tick = 0
+			w.Ctl.mu.Unlock()
+			conn := &scriptConn{closed: make(chan struct{}), out: map[uuid.UUID]int{}, limit: actions.FlowControl{MaxMessages: int(c.limit), MaxBytes: 1 << 40}, ctl: w.Ctl, greqs: make(chan *pubsubpb.StreamingPullRequest)}
+			ctx, cancel := context.WithCancel(WithLabel(context.Background(), "stream"))
+			defer cancel()
+			w.Ctl.SpinGuard("stream", 200)
+			fin := make(chan error, 1)
+			go func() { fin <- w.Api().Sub.StreamingPull(&grpcStream{c: conn, ctx: ctx}) }()
+			select {
+			case conn.greqs <- &pubsubpb.StreamingPullRequest{Subscription: SubName("s"), StreamAckDeadlineSeconds: 10, MaxOutstandingMessages: c.limit, MaxOutstandingBytes: 1 << 30}:
+			case err := <-fin:
+				what = fmt.Sprintf("setup: the stream ended before its initial request: %v", err)
+				return
+			}
+			synctest.Wait()
+			distinct := func() int {
+				conn.mu.Lock()
+				defer conn.mu.Unlock()
+				seen := map[uuid.UUID]bool{}
+				for _, s := range conn.sent {
+					seen[s.id] = true
+				}
+				return len(seen)
+			}
+			w2 := *w
+			first := []MsgSpec{{N: 0}}
+			if c.limit == 1 {
+				// two messages wait; the stream has room for one of them
+				first = []MsgSpec{{N: 0}, {N: 10}}
+			}
+			w2.execInner(Op{K: "publish", Topic: "t", Msgs: first}, &Result{T: w.Now()})
+			synctest.Wait()
+			hold := 600 * time.Millisecond
+			if c.limit == 1 {
+				hold = 2500 * time.Millisecond // the retry deadline (back-off plus up to a second of jitter) has passed for sure
+			}
+			time.Sleep(hold)
+			synctest.Wait()
+			if n0 := distinct(); n0 != 1 {
+				if c.delay > 0 && n0 == 0 {
+					what = fmt.Sprintf("subscription with an injected delivery delay of 300 ms, StreamingPull with max_outstanding_messages=%d waiting on the empty subscription: a message was published %v ago and has been deliverable since its delay passed, but the stream has sent nothing: it sits idle with capacity free", c.limit, hold)
+				} else {
+					what = fmt.Sprintf("setup: %d messages sent %v after the first publish", n0, hold)
+				}
+				return
+			}
+			w2.execInner(Op{K: "publish", Topic: "t", Msgs: []MsgSpec{{N: 1}}}, &Result{T: w.Now()})
+			synctest.Wait()
+			time.Sleep(2 * time.Second)
+			synctest.Wait()
+			n := distinct()
+			switch {
+			case c.limit == 1 && n > 1:
+				what = fmt.Sprintf("subscription with a retry back-off of 200-300 ms, StreamingPull with max_outstanding_messages=1: the first message was sent and neither acknowledged nor nacked; 2.5 s later (its retry deadline passed, its retention did not) another message is published (a second one has been waiting all along); within 2 s the stream has sent %d distinct messages, none of them acknowledged: more than the limit outstanding", n)
+			case c.limit > 1 && n < 2:
+				what = fmt.Sprintf("subscription with an injected delivery delay of 300 ms, StreamingPull with max_outstanding_messages=%d: one message outstanding; a second message was published 2 s ago and has been deliverable for 1.7 s, but the stream has sent %d distinct messages: it sits idle with capacity free", c.limit, n)
+			}
+			w.Ctl.SpinGuard("", 0)
+			cancel()
+			w.Ctl.SpinReset()
+			synctest.Wait()
+		})
+		st.Count("stream_timed_cases", 1)
+		if strings.HasPrefix(what, "setup:") {
+			st.Count("stream_timed_setup_failed", 1)
+			continue
+		}
+		if what != "" {
+			sig := map[bool]string{true: "bound-exceeded-after-lease-lapse", false: "stall-delayed-publish"}[c.limit == 1]
+			p := writeScenario("C11", sig, what, []string{"subscription " + fmt.Sprintf("%+v", c.cfg) + fmt.Sprintf(" delivery delay %d ns", c.delay),
+				fmt.Sprintf("StreamingPull{max_outstanding_messages %d}", c.limit), "publish, 0.6 s (2.5 s in the first case), publish, 2 s; nothing is acknowledged"})
+			st.Violate(Violation{What: "[" + sig + "] " + what, Replay: p, FoundInput: true, Sig: sig})
+			return
+		}
+	}
+}
